@@ -995,6 +995,96 @@ def bounded_later_changes(rec, part=0, parts=1):
                      '(names, value, gradient / seeded samples / regimen); distinct by construction', exhaustive=True)
 
 
+def bounded_seeded_sampling(rec):
+    """seeded sampling is an evaluation: repeated under other states of the global generators, with a sibling's sampling in between, and in a
+    forked worker, it returns what it returned the first time"""
+    def entries():
+        import chi as c
+        import pints
+        import xarray as xr
+        Toy = toy_mech(c)
+
+        def hpost(kinds):
+            lls = []
+            for i in range(2):
+                ll = c.LogLikelihood(Toy(), [c.GaussianErrorModel()], [4.0 + i, 5.0, 6.5][:2 + i], [1.0, 2.0, 3.0][:2 + i])
+                ll.set_id('id%d' % (i + 1))
+                lls.append(ll)
+            pop = c.ComposedPopulationModel([{'G': c.GaussianModel, 'L': c.LogNormalModel, 'P': c.PooledModel, 'N': (lambda: c.GaussianModel(centered=False))}[k]() for k in kinds])
+            hll = c.HierarchicalLogLikelihood(lls, pop)
+            return c.HierarchicalLogPosterior(hll, pints.ComposedLogPrior(*[pints.LogNormalLogPrior(0.0, 0.3) for _ in range(hll.n_parameters(exclude_bottom_level=True))]))
+
+        def post():
+            ll = c.LogLikelihood(Toy(), [c.GaussianErrorModel()], [4.0, 5.0, 6.5], [1.0, 2.0, 3.0])
+            return c.LogPosterior(ll, pints.ComposedLogPrior(*[pints.LogNormalLogPrior(0.0, 0.3) for _ in range(3)]))
+
+        def pm():
+            return c.PredictiveModel(Toy(), [c.GaussianErrorModel()])
+
+        def ppm():
+            return c.PopulationPredictiveModel(pm(), c.ComposedPopulationModel([c.GaussianModel(), c.PooledModel(), c.LogNormalModel()]))
+
+        def prior_pm():
+            return c.PriorPredictiveModel(pm(), pints.ComposedLogPrior(*[pints.LogNormalLogPrior(0.0, 0.3) for _ in range(3)]))
+
+        def post_pm():
+            names = pm().get_parameter_names()
+            ds = xr.Dataset({n_: (('chain', 'draw'), 0.5 + 0.1 * np.arange(6).reshape(2, 3) + k_) for k_, n_ in enumerate(names)}, coords={'chain': [0, 1], 'draw': [0, 1, 2]})
+            return c.PosteriorPredictiveModel(pm(), ds)
+        return {
+            'HierarchicalLogPosterior(G+L+P).sample_initial_parameters': (lambda: hpost('GLP'), lambda o: o.sample_initial_parameters(n_samples=3, seed=7)),
+            'HierarchicalLogPosterior(N+P+G).sample_initial_parameters': (lambda: hpost('NPG'), lambda o: o.sample_initial_parameters(n_samples=2, seed=7)),
+            'LogPosterior.sample_initial_parameters': (post, lambda o: o.sample_initial_parameters(n_samples=3, seed=7)),
+            'PredictiveModel.sample': (pm, lambda o: o.sample([1.0, 0.5, 0.3], [3.0, 1.0], n_samples=3, seed=7, return_df=False)),
+            'PopulationPredictiveModel.sample': (ppm, lambda o: o.sample([1.0, 0.2, 0.5, 0.1, 0.3], [3.0, 1.0], n_samples=3, seed=7, return_df=False)),
+            'PriorPredictiveModel.sample': (prior_pm, lambda o: o.sample([3.0, 1.0], n_samples=3, seed=7)['Value'].to_numpy(dtype=float)),
+            'PosteriorPredictiveModel.sample': (post_pm, lambda o: o.sample([3.0, 1.0], n_samples=3, seed=7)['Value'].to_numpy(dtype=float)),
+            'GaussianModel.sample': (lambda: c.GaussianModel(n_dim=2), lambda o: o.sample([1.0, 2.0, 0.5, 0.4], n_samples=3, seed=7)),
+            'ComposedPopulationModel.sample': (lambda: c.ComposedPopulationModel([c.TruncatedGaussianModel(), c.HeterogeneousModel(n_ids=2), c.LogNormalModel()]),
+                                               lambda o: o.sample([1.0, 0.5, 1.5, 2.5, 0.2, 0.4], n_samples=3, seed=7)),
+            'LogNormalErrorModel.sample': (lambda: c.LogNormalErrorModel(), lambda o: o.sample([0.3], [1.0, 2.0], n_samples=3, seed=7)),
+        }
+
+    def one(label):
+        ent = entries()
+        mk, f = ent[label]
+        o = mk()
+        np.random.seed(1)
+        first = numeric_result(f(o))
+        labels = sorted(ent)
+        sib_label = labels[(labels.index(label) + 1) % len(labels)]
+        sib_mk, sib_f = ent[sib_label]
+        for step, prep in enumerate((lambda: (np.random.seed(2), np.random.random(5)), lambda: sib_f(sib_mk()), lambda: f(mk()), lambda: np.random.default_rng(3).normal(size=4))):
+            prep()
+            again = numeric_result(f(o))
+            if not same_numeric(first, again):
+                return '%s with seed 7: the call repeated after %s returns different samples than the first call' % (label, ['re-seeding and advancing the global numpy generator', 'a sibling object\'s seeded sampling (%s)' % sib_label,
+                                                                                                                           'the same call on a fresh twin object', 'an unrelated Generator draw'][step])
+        np.random.random(11)
+        import os
+        import pickle
+        rd, wr = os.pipe()
+        pid = os.fork()          # (the check itself runs in a daemonic pool worker, which may not start multiprocessing children)
+        if pid == 0:
+            try:
+                os.close(rd)
+                with os.fdopen(wr, 'wb') as fh:
+                    pickle.dump(numeric_result(f(mk())), fh)
+            finally:
+                os._exit(0)
+        os.close(wr)
+        with os.fdopen(rd, 'rb') as fh:
+            data = fh.read()
+        os.waitpid(pid, 0)
+        forked = pickle.loads(data)
+        if not same_numeric(first, forked):
+            return '%s with seed 7: a forked worker returns different samples than the sequential call' % label
+        return None
+    rec.native_check('seeded-sampling[global state, siblings, fork]', ['chi._log_pdfs.*.sample_initial_parameters', 'chi._predictive_models.*.sample', 'chi._population_models.*.sample', 'chi._error_models.*.sample'],
+                     sorted(entries()), one, '10 seeded sampling entry points; each repeated after re-seeding / advancing the global generator, after a sibling\'s sampling, after the same call on a twin object, and in a forked worker; '
+                     'distinct by entry point', exhaustive=True)
+
+
 def _post_toy():
     import chi
     import pints
@@ -1190,4 +1280,4 @@ def bounded_inputs(rec):
                      '8 entry points that take arrays / data frames / datasets: deep copies before, equality after construction and every evaluation; distinct by entry point', exhaustive=True)
 
 
-TASKS = [('error', error_models), ('loglikelihood', likelihoods), ('hierarchical', hierarchical), ('predictive', predictive), ('ownership', ownership), ('filter', filters), ('processes', bounded_processes), ('inputs', bounded_inputs)] + [('histories%d' % k, (lambda rec, k=k: bounded_histories(rec, k, 6))) for k in range(6)] + [('later-changes%d' % k, (lambda rec, k=k: bounded_later_changes(rec, k, 4))) for k in range(4)] + [('population%d' % k, (lambda rec, k=k: population_models(rec, k))) for k in range(3)]
+TASKS = [('error', error_models), ('loglikelihood', likelihoods), ('hierarchical', hierarchical), ('predictive', predictive), ('ownership', ownership), ('filter', filters), ('processes', bounded_processes), ('inputs', bounded_inputs), ('seeded-sampling', bounded_seeded_sampling)] + [('histories%d' % k, (lambda rec, k=k: bounded_histories(rec, k, 6))) for k in range(6)] + [('later-changes%d' % k, (lambda rec, k=k: bounded_later_changes(rec, k, 4))) for k in range(4)] + [('population%d' % k, (lambda rec, k=k: population_models(rec, k))) for k in range(3)]
